@@ -25,6 +25,11 @@ def _immutable_literal(e):
         return _immutable_literal(e.operand)
     if isinstance(e, ast.Tuple):
         return all(_immutable_literal(x) for x in e.elts)
+    # a function of the math module on constants (`math.log10(2)`): a number fixed at import time
+    if isinstance(e, ast.Call) and isinstance(e.func, ast.Attribute) and isinstance(e.func.value, ast.Name) and e.func.value.id == "math" and not e.keywords and e.args and all(isinstance(a, ast.Constant) and isinstance(a.value, (int, float)) and not isinstance(a.value, bool) for a in e.args):
+        return True
+    if isinstance(e, ast.BinOp) and isinstance(e.op, (ast.Add, ast.Sub, ast.Mult, ast.Div, ast.FloorDiv, ast.Pow, ast.LShift)) and _immutable_literal(e.left) and _immutable_literal(e.right) and not any(isinstance(x, ast.Constant) and isinstance(x.value, (str, bytes)) for x in (e.left, e.right)):
+        return True
     if isinstance(e, ast.Call) and isinstance(e.func, ast.Name) and e.func.id == "frozenset" and len(e.args) == 1 and not e.keywords:
         return _literal(e.args[0])
     # a bound method of a compiled struct format (`Struct('<f').pack`)
@@ -42,6 +47,13 @@ def _literal(e, names=()):
         return True
     if isinstance(e, ast.Name) and e.id in names:
         return True
+    # an attribute of a stable module-level name (`array.array`, `numbers.Integral`): a class or function of a module
+    if isinstance(e, ast.Attribute) and isinstance(e.ctx, ast.Load):
+        b = e
+        while isinstance(b, ast.Attribute):
+            b = b.value
+        if isinstance(b, ast.Name) and b.id in names:
+            return True
     # a closed lambda: its body only reads its own parameters, builtins and stable module-level names
     if isinstance(e, ast.Lambda) and not e.args.vararg and not e.args.kwarg and not e.args.defaults and not e.args.kw_defaults:
         import builtins as _bb
@@ -145,7 +157,9 @@ def inline_constants(trees, report):
             if isinstance(n, ast.Name) and isinstance(n.ctx, ast.Load) and n.id in visible and n.id not in shadow.get(id(n), ()):
                 value = visible[n.id].value
                 par = pm.get(id(n))
-                if not _immutable_literal(value):
+                if isinstance(value, ast.Tuple) and not any(isinstance(x, (ast.List, ast.Dict, ast.Set, ast.Call, ast.Lambda)) for x in ast.walk(value)):
+                    pass  # a tuple of names / constants is immutable: any read may be the display itself
+                elif not _immutable_literal(value):
                     membership = isinstance(par, ast.Compare) and len(par.ops) == 1 and isinstance(par.ops[0], (ast.In, ast.NotIn)) and par.comparators[0] is n
                     lookup = isinstance(par, ast.Subscript) and par.value is n and isinstance(par.ctx, ast.Load)
                     readonly = isinstance(par, ast.Attribute) and par.value is n and par.attr in ("items", "keys", "values", "get") and isinstance(pm.get(id(par)), ast.Call) and pm[id(par)].func is par
